@@ -12,7 +12,7 @@ Proof.
   intro H. pose proof (mk_conv_inv d rs c H) as (_ & _ & Hu & Hp & Ed & Er & _).
   pose proof (mk_conv_wf d rs c H) as W. unfold swf. rewrite Er, Ed. split; [|split; auto].
   assert (P: forall r, In r rs <-> In r (sort_records rs)) by (intro r; symmetry; apply sort_records_In).
-  destruct W as [op ou dl rc sy pm tr]. constructor.
+  destruct W as [op ou dl rc sy pm tr rp]. constructor.
   - eapply one_owner_perm; eauto.
   - eapply one_owner_perm; eauto.
   - exact dl.
@@ -20,6 +20,7 @@ Proof.
   - intro p. rewrite sy. f_equal. symmetry. apply owner_perm; auto.
   - intro p. rewrite pm. f_equal. symmetry. apply owner_perm; auto.
   - intro u. rewrite tr. f_equal. symmetry. apply owner_perm; auto.
+  - intro u. rewrite rp. f_equal. symmetry. apply owner_perm; auto.
 Qed.
 
 (* owner is characterised by membership under one_owner *)
@@ -153,14 +154,17 @@ Proof. simpl. apply (dget_idx_rec all_prefixes r_uri). Qed.
 Lemma index_trie c r rs' u : find u (ctrie (index c r rs')) = if mem u (all_uris r) then Some (r_prefix r) else find u (ctrie c).
 Proof. unfold index. cbn [ctrie]. apply find_fold_insert_const. Qed.
 
+Lemma index_rpmap c r rs' u : dget u (rpmap (index c r rs')) = if mem u (all_uris r) then Some (r_prefix r) else dget u (rpmap c).
+Proof. simpl. apply (dget_idx_rec all_uris r_prefix). Qed.
+
 (* generic: updating an index with record x whose keys are "fresh or already x's" keeps it the owner map of rs' *)
 Lemma index_wf c x rs' :
   one_owner all_prefixes rs' -> one_owner all_uris rs' -> In x rs' ->
   (forall p y, In y rs' -> In p (all_prefixes y) -> ~ In p (all_prefixes x) ->
        dget p (synmap c) = Some (r_prefix y) /\ dget p (pmap c) = Some (r_uri y)) ->
   (forall p, (forall y, In y rs' -> ~ In p (all_prefixes y)) -> dget p (synmap c) = None /\ dget p (pmap c) = None) ->
-  (forall u y, In y rs' -> In u (all_uris y) -> ~ In u (all_uris x) -> find u (ctrie c) = Some (r_prefix y)) ->
-  (forall u, (forall y, In y rs' -> ~ In u (all_uris y)) -> find u (ctrie c) = None) ->
+  (forall u y, In y rs' -> In u (all_uris y) -> ~ In u (all_uris x) -> find u (ctrie c) = Some (r_prefix y) /\ dget u (rpmap c) = Some (r_prefix y)) ->
+  (forall u, (forall y, In y rs' -> ~ In u (all_uris y)) -> find u (ctrie c) = None /\ dget u (rpmap c) = None) ->
   wf (index c x rs') rs' (delim c).
 Proof.
   intros OP OU Hx A1 A2 B1 B2. constructor; auto; try (simpl; tauto).
@@ -175,6 +179,11 @@ Proof.
       * apply mem_false in M. apply A1; auto.
     + intro Hn. destruct (mem p (all_prefixes x)) eqn:M; [apply mem_In in M; exfalso; eapply Hn; eauto|]. apply A2; auto.
   - intro u. rewrite index_trie. apply owner_char; auto.
+    + intros y Hy Hu. destruct (mem u (all_uris x)) eqn:M.
+      * apply mem_In in M. rewrite (OU y x u); auto.
+      * apply mem_false in M. apply B1; auto.
+    + intro Hn. destruct (mem u (all_uris x)) eqn:M; [apply mem_In in M; exfalso; eapply Hn; eauto|]. apply B2; auto.
+  - intro u. rewrite index_rpmap. apply owner_char; auto.
     + intros y Hy Hu. destruct (mem u (all_uris x)) eqn:M.
       * apply mem_In in M. rewrite (OU y x u); auto.
       * apply mem_false in M. apply B1; auto.
@@ -268,8 +277,8 @@ Proof.
   - intros p Hn. rewrite (wf_syn _ _ _ W), (wf_pmap _ _ _ W). unfold owner_by_prefix. fold (owner all_prefixes (recs c) p).
     rewrite owner_none; auto. intros y Hy. apply Hn. apply in_or_app; auto.
   - intros u y Hy Hu Hn. apply in_app_or in Hy as [Hy|[<-|[]]]; [|contradiction].
-    rewrite (wf_trie _ _ _ W), (owner_reg all_uris (recs c) u y); auto.
-  - intros u Hn. rewrite (wf_trie _ _ _ W), owner_none; auto. intros y Hy. apply Hn. apply in_or_app; auto.
+    rewrite (wf_trie _ _ _ W), (wf_rpmap _ _ _ W), (owner_reg all_uris (recs c) u y); auto.
+  - intros u Hn. rewrite (wf_trie _ _ _ W), (wf_rpmap _ _ _ W), owner_none; auto. intros y Hy. apply Hn. apply in_or_app; auto.
 Qed.
 
 Definition repl (m m' : record) (x : record) : record := if key_eqb (record_key x) (record_key m) then m' else x.
@@ -328,8 +337,8 @@ Proof.
     + apply (Hn m'); [apply In'; auto|]. apply merge_prefixes. auto.
     + apply (Hn y); auto. apply In'. auto.
   - intros u y Hy Hu Hn. apply In' in Hy as [->|[Hy Hne]]; [contradiction|].
-    rewrite (wf_trie _ _ _ W), (owner_reg all_uris (recs c) u y); auto.
-  - intros u Hn. rewrite (wf_trie _ _ _ W), owner_none; auto. intros y Hy Hu. destruct (record_eq_dec y m) as [->|Hne].
+    rewrite (wf_trie _ _ _ W), (wf_rpmap _ _ _ W), (owner_reg all_uris (recs c) u y); auto.
+  - intros u Hn. rewrite (wf_trie _ _ _ W), (wf_rpmap _ _ _ W), owner_none; auto. intros y Hy Hu. destruct (record_eq_dec y m) as [->|Hne].
     + apply (Hn m'); [apply In'; auto|]. apply merge_uris. auto.
     + apply (Hn y); auto. apply In'. auto.
 Qed.
